@@ -1008,7 +1008,8 @@ _vbi_export_grow_buffer_space	(vbi_export *		e,
 
 		/* Carry over the old data because the output may
 		   fit after all. */
-		memcpy (e->buffer.data, old_data, e->buffer.offset);
+		if (e->buffer.offset > 0)
+			memcpy (e->buffer.data, old_data, e->buffer.offset);
 
 		return TRUE;
 	} else {
@@ -1480,7 +1481,9 @@ vbi_export_vprintf		(vbi_export *		e,
 		size_t avail = e->buffer.capacity - offset;
 		int len;
 
-		len = vsnprintf (e->buffer.data + offset,
+		/* The buffer may not be allocated yet (NULL + 0 is undefined). */
+		len = vsnprintf ((NULL != e->buffer.data) ?
+				 e->buffer.data + offset : NULL,
 				 avail, templ, ap);
 		if (len < 0) {
 			/* avail is not enough. */
@@ -1612,8 +1615,9 @@ vbi_export_mem			(vbi_export *		e,
 
 			/* Or was it? We may have started to write into
 			   @a buffer, so let's finish that in any case. */
-			memcpy (buffer, e->buffer.data,
-				MIN (e->buffer.offset, buffer_size));
+			if (buffer_size > 0)
+				memcpy (buffer, e->buffer.data,
+					MIN (e->buffer.offset, buffer_size));
 
 			free (e->buffer.data);
 		}
